@@ -175,6 +175,30 @@ def splitAux (sep : Nat) (cur : Bytes) : Bytes → List Bytes
 
 def split (s : Bytes) (sep : Nat) : List Bytes := splitAux sep [] s
 
+/-- `split(sequence, [sep₁, sep₂, …])`: pieces end at any byte satisfying `p` -/
+def splitByAux (p : Nat → Bool) (cur : Bytes) : Bytes → List Bytes
+  | [] => [cur.reverse]
+  | b :: bs => if p b then cur.reverse :: splitByAux p [] bs else splitByAux p (b :: cur) bs
+
+def splitBy (p : Nat → Bool) (s : Bytes) : List Bytes := splitByAux p [] s
+
+/-- `join(sequences, sep, keep_last)` -/
+def join (strs : List Bytes) (sep : Nat) (keepLast : Bool) : Bytes :=
+  if keepLast then joinKeepLast strs sep else (joinKeepLast strs sep).dropLast
+
+/-- `int_lists_to_strings(x, sep="")` (the `List[bool]` column writer): one digit character per
+element, no separator; `none` = a value that is not a single digit -/
+def digitListsToStrings (rows : List (List Nat)) : Option (List Bytes) :=
+  omap (fun r => omap (fun d => if d < 10 then some (48 + d) else none) r) rows
+
+/-- `int_to_str(n)` as repaired: the one-element batch of `ints_to_strings` -/
+def intToStr (n : Int) : Bytes := (intsToStrings [n]).headD []
+
+/-- `int_to_str(n)` as shipped before the repair: `L = int(log10(max(n, 1))) + 1` digits of `n`
+(float width `w`, no sign handling) -/
+def intToStrOld (w : Int → Nat) (n : Int) : Bytes :=
+  (countdown (w (max n 1))).map (fun p => (48 + n / 10 ^ p.toNat % 10).toNat)
+
 /-- a `List[int]` field read back: `str_to_int(split(text, sep))` -/
 def splitParse (s : Bytes) (sep : Nat) : Option (List Int) := strToInt (split s sep)
 
